@@ -370,6 +370,9 @@ def set_default_doc(param, emit_default_doc=True):
     # if param is None: param = {"doc": "", "typ": "Any"}
     if _param is None or "doc" not in _param:
         return name, _param
+    _param = dict(
+        _param
+    )  # the caller's mapping is not written to: the same description may be emitted again
     has_defaults = (
         "Defaults" in _param["doc"]
         or "defaults" in _param["doc"]
